@@ -141,6 +141,9 @@ impl Listing {
         let mut new_source: BTreeMap<LineNumber, Line> = BTreeMap::default();
         for line in self.lines() {
             let line = line.renum(&changes);
+            if line.to_string().len() > MAX_LINE_LEN {
+                return Err(error!(LineBufferOverflow));
+            }
             new_source.insert(line.number(), line);
         }
         self.source = Arc::from(new_source);
